@@ -127,9 +127,25 @@ class ProofResult:
 
 
 def lean_prove(prop_mod, extra_targets=("driver",), leanchecker=False):
-    """Build the property module (and the driver), forbid escape hatches, audit axioms."""
+    """Build the property module(s) (and the driver), forbid escape hatches, audit axioms."""
+    if isinstance(prop_mod, (list, tuple)):
+        total = ProofResult()
+        for m in prop_mod:
+            r = lean_prove(m, extra_targets, leanchecker)
+            total.ok = total.ok and r.ok
+            total.problems += r.problems
+            total.theorems.update(r.theorems)
+            total.modules = sorted(set(total.modules) | set(r.modules))
+            total.log += r.log
+            total.mathlib_imports = sorted(set(total.mathlib_imports) | set(r.mathlib_imports))
+            total.wall += r.wall
+        return total
     t0 = time.time()
     r = ProofResult()
+    if not os.path.exists(os.path.join(LEAN, *prop_mod.split(".")) + ".lean"):
+        r.ok = False
+        r.problems.append(f"property module {prop_mod} is missing")
+        return r
     mods = lean_module_closure(prop_mod)
     r.modules = sorted(mods)
     for m, path in mods.items():
